@@ -56,10 +56,10 @@ Proof. exact step_ok. Qed.
 Theorem C12_every_history_returns : forall ops st, out_of (run repaired st ops) = Ok.
 Proof. exact run_ok. Qed.
 
-(* federation_progress (3): one operation causes at most (queued requests + 6)
+(* federation_progress (3): one operation causes at most (queued requests + 9)
    effects: nothing is repeated without bound *)
 Theorem C12_effects_bounded : forall v st o,
-  (List.length (acts_of (step v st o)) <= N.to_nat (pending st) + 6)%nat.
+  (List.length (acts_of (step v st o)) <= N.to_nat (pending st) + 9)%nat.
 Proof. exact step_len. Qed.
 
 (* federation_progress (4): reconnects are paced.  Every reconnect ever scheduled
